@@ -14,10 +14,12 @@
                       behaviour None or S/T/P/I, prediction id None / positive int / list of >= 2 positive ints
                       (only with a behaviour);
     `norm r`          the id the constructor builds (defaults filled in).
-  Helper lemmas: CRProofs/BenchId.lean (digits, split/join, matcher on the normal form, grammar), CRProofs/BenchIdValid.lean.
+  Helper lemmas: CRProofs/BenchId.lean (digits, split/join, matcher on the normal form, grammar), CRProofs/BenchIdValid.lean,
+  CRProofs/BenchIdObj.lean (keyword construction `KwValid`, ids as objects `IdOk`, the Solution's dict).
 -/
 import CRProofs.BenchIdValid
 import CRProofs.BenchIdGrammar
+import CRProofs.BenchIdObj
 set_option linter.unusedSimpArgs false
 namespace CR.BenchId
 
@@ -134,6 +136,107 @@ example : readSolutionIds exCountries
     (benchmarkId [(.PM, .FORD_ESCORT), (.KST, .VW_VANAGON)] [.JB1, .SA1] (norm exRaw)) 2
     = .ok ([(.PM, .FORD_ESCORT, .JB1), (.KST, .VW_VANAGON, .SA1)], norm exRaw) :=
   C13_solution_roundtrip exCountries_ok exRaw_valid _ _ rfl (by simp)
+
+/-! ### ids and solutions as objects: arguments left at their defaults, attributes re-assigned, setters
+
+  The generators construct ids with any subset of the eight constructor arguments, re-assign attributes after
+  construction (and after a first print / hash / comparison), change vehicle model / type / cost function of a
+  planning problem solution through its setters and re-assign the Solution's list and scenario id.  The theorems
+  below say that none of this leaves the domain of the theorems above: what counts is the tuple of CURRENT values. -/
+
+/-- C13 (constructor, keywords): whichever of the eight arguments are given (each inside the domain) and whichever
+    are left at the signature's defaults, the constructor accepts them, and the id it builds prints into the grammar
+    and parses back to itself. -/
+theorem C13_kw_defaults {cs : List Str} (hcs : CountriesOk cs) {k : Kw} (hk : KwValid cs k) :
+    mk cs k.fill = .ok (norm k.fill) ∧ Matches idRE (print (norm k.fill)) ∧
+      parse cs (print (norm k.fill)) k.fill.version = .ok (norm k.fill) :=
+  ⟨C13_ctor_defaults (kw_valid hk), C13_grammar hcs (kw_valid hk), C13_parse_print hcs (kw_valid hk)⟩
+
+/-- `ScenarioID()` — nothing given — is the map id `ZAM_Test-1` of version 2020a. -/
+theorem C13_kw_nothing_given (cs : List Str) :
+    mk cs ({} : Kw).fill = .ok (norm ({} : Kw).fill) ∧
+      print (norm ({} : Kw).fill) = ['Z', 'A', 'M', '_', 'T', 'e', 's', 't', '-', '1'] := by
+  refine ⟨C13_ctor_defaults (kw_valid ⟨?_, ?_, ?_, ?_, ?_, ?_, ?_, ?_, ?_⟩), by decide⟩ <;> intro _ h <;> cases h
+
+/-- C13 (objects): an id whose CURRENT attribute values form a valid scenario id (`IdOk`) — however it got them —
+    prints into the grammar, parses back to an equal id (all eight attributes) and hence prints identically. -/
+theorem C13_fields_roundtrip {cs : List Str} (hcs : CountriesOk cs) {i : Id} (h : IdOk cs i) :
+    Matches idRE (print i) ∧ parse cs (print i) i.version = .ok i := by
+  have e := norm_toRaw h
+  have h1 := C13_grammar hcs h.valid
+  have h2 := C13_parse_print hcs h.valid
+  rw [e] at h1 h2
+  exact ⟨h1, h2⟩
+
+/-- every id the constructor builds from valid arguments is such an object -/
+theorem C13_ctor_idOk {cs : List Str} {r : Raw} (hv : Valid cs r) : ∃ i, mk cs r = .ok i ∧ IdOk cs i :=
+  ⟨norm r, C13_ctor_defaults hv, idOk_norm hv⟩
+
+/-- C13 (histories): after ANY sequence of attribute assignments (plain attributes, the cleaning `map_name` setter,
+    the validating `country_id` setter incl. rejected values) on ANY id, if the values the object then holds form a
+    valid scenario id, it prints into the grammar and parses back to itself.  Printing, comparing or hashing in
+    between cannot matter: the model's `print` is a function of the current values only — an implementation that
+    caches is caught by the correspondence / the oracle. -/
+theorem C13_history_roundtrip {cs : List Str} (hcs : CountriesOk cs) (i0 : Id) (ops : List Op)
+    (h : IdOk cs (runOps cs i0 ops)) :
+    Matches idRE (print (runOps cs i0 ops)) ∧
+      parse cs (print (runOps cs i0 ops)) (runOps cs i0 ops).version = .ok (runOps cs i0 ops) :=
+  C13_fields_roundtrip hcs h
+
+/-- a rejected country leaves the id unchanged (the history simply continues) -/
+theorem C13_rejected_assignment_keeps_id (cs : List Str) (i : Id) (c : Str) (ops : List Op)
+    (hc : c ∉ cs) (hz : c ≠ ZAM) : runOps cs i (.country (some c) :: ops) = runOps cs i ops := by
+  simp [runOps, applyOp, setCountry, hc, hz]
+
+/-- C13 (solution objects): a Solution holding any non-empty list of planning problem solutions with pairwise
+    different planning problem ids (in any order, whatever setters produced their current model / type / cost) and a
+    scenario id whose current values are valid: its benchmark id is read back to exactly these (model, type, cost)
+    triples in this order, the same scenario id and version. -/
+theorem C13_solution_objects {cs : List Str} (hcs : CountriesOk cs) {i : Id} (hi : IdOk cs i)
+    (l : List Pps) (hne : l ≠ []) (hd : (l.map Pps.pid).Nodup) :
+    readSolutionIds cs (solutionBenchmarkId l i) l.length = .ok (l.map (fun p => (p.model, p.vtype, p.cost)), i) := by
+  have h := C13_solution_roundtrip hcs hi.valid (l.map fun p => (p.model, p.vtype)) (l.map Pps.cost)
+    (by simp) (by simpa using hne)
+  rw [norm_toRaw hi, zip3_map] at h
+  simpa [solutionBenchmarkId, solutionPps_nodup l hd] using h
+
+/-- the setters never produce a combination the constructor would have rejected: an accepted assignment yields a
+    planning problem solution that passes the constructor's guards again -/
+theorem C13_setter_keeps_guards (p q : Pps) (op : POp) (hp : Pps.check p = .ok p) (h : p.apply op = .ok q) :
+    Pps.check q = .ok q := by
+  obtain ⟨_, hp1, hp2⟩ := Pps.check_ok.1 hp
+  cases op with
+  | model m =>
+    obtain ⟨e, h1, h2⟩ := Pps.check_ok.1 (by simpa [Pps.apply] using h)
+    subst e
+    exact Pps.check_ok.2 ⟨rfl, h1, h2⟩
+  | vtype t =>
+    simp only [Pps.apply, Except.ok.injEq] at h
+    subst h
+    exact Pps.check_ok.2 ⟨rfl, hp1, hp2⟩
+  | cost c =>
+    obtain ⟨e, h1, h2⟩ := Pps.check_ok.1 (by simpa [Pps.apply] using h)
+    subst e
+    exact Pps.check_ok.2 ⟨rfl, h1, h2⟩
+  | traj t =>
+    simp only [Pps.apply] at h
+    split at h
+    · cases h
+      exact Pps.check_ok.2 ⟨rfl, by assumption, hp2⟩
+    · cases h
+
+/-- a repeated planning problem id: the dict keeps the first position and the last value (two entries collapse) -/
+example : solutionPps [⟨7, .KS, .BMW_320i, .SA1, .input⟩, ⟨3, .PM, .FORD_ESCORT, .JB1, .pmInput⟩, ⟨7, .MB, .TRUCK, .TR1, .input⟩]
+    = [⟨7, .MB, .TRUCK, .TR1, .input⟩, ⟨3, .PM, .FORD_ESCORT, .JB1, .pmInput⟩] := by decide
+example : Pps.apply ⟨1, .PM, .FORD_ESCORT, .JB1, .pmInput⟩ (.cost .SA1) = .error .other := by decide
+example : Pps.apply ⟨1, .KS, .FORD_ESCORT, .SA1, .input⟩ (.model .PM) = .error .other := by decide
+example : Pps.apply ⟨1, .KS, .FORD_ESCORT, .SA1, .input⟩ (.model .MB) = .ok ⟨1, .MB, .FORD_ESCORT, .SA1, .input⟩ := by decide
+example : IdOk exCountries (norm exRaw) := idOk_norm exRaw_valid
+example : IdOk exCountries (runOps exCountries (norm exRaw) [.mapId 7, .country (some ['X', 'X', 'X']), .coop false]) := by
+  have : runOps exCountries (norm exRaw) [.mapId 7, .country (some ['X', 'X', 'X']), .coop false]
+      = norm { exRaw with mapId := 7, coop := false } := by decide
+  rw [this]
+  exact idOk_norm { exRaw_valid with mapId := by decide }
 
 /-! ### boundary of the domain (recorded, not a finding)
 
